@@ -46,6 +46,43 @@ def _once_guard(g):
     return False
 
 
+def default_resolution(ctx):
+    """A force law whose reference length defaults to l(t0, q0) is the same model after a restart only if the default is
+    resolved at the FIRST assembly and kept: the store must sit under `if self.X is None` for the very attribute X it assigns
+    (afterwards X is not None any more).  A store into another attribute under that guard is executed at every re-assembly."""
+    rep = ctx.rep
+    n = 0
+    for ci in ctx.model.all_classes():
+        if not ci.rel.startswith("cardillo/force_laws/"):
+            continue
+        fn = ci.methods.get("assembler_callback")
+        if fn is None:
+            continue
+        C = f"{ci.rel}:{ci.qual}.assembler_callback"
+        for st in walk_no_nested(fn):
+            if not isinstance(st, ast.Assign):
+                continue
+            for tg in st.targets:
+                if not (isinstance(tg, ast.Attribute) and dotted(tg.value) == "self"):
+                    continue
+                reads = {dotted(w) for w in ast.walk(st.value) if isinstance(w, ast.Attribute) and dotted(w)}
+                state = sorted(r for r in reads if r and r.split(".")[-1] in ("q0", "u0", "t0") and ".subsystem" in r)
+                if not state:
+                    continue
+                n += 1
+                gs = guards_of(st, fn)
+                own = any(pol and txt == f"self.{tg.attr} is None" for (txt, pol) in gs) or \
+                    any(pol and txt.startswith("not hasattr(self") and f"'{tg.attr}'" in txt.replace('"', "'") for (txt, pol) in gs)
+                if own:
+                    rep.ok("C24.R7", C, f"self.{tg.attr} <- {', '.join(state)} under `self.{tg.attr} is None`: resolved at the first assembly only")
+                else:
+                    rep.bad("C24.R7", C, st, f"`self.{tg.attr}` is derived from the subsystem's initial state ({', '.join(state)}) on EVERY assembly (guards: "
+                            f"{[t for t, p in gs] or 'none'}): after set_new_initial_state the force law gets a new reference value, i.e. the restarted system is another model",
+                            f"{ci.rel}:{st.lineno}")
+    if n < 3:
+        raise AnalysisError(f"C24.R7: only {n} default resolutions found in force_laws assembler callbacks")
+
+
 def run(ctx):
     rep = ctx.rep
     rep.rule("C24.R1", "body-fixed joint data is not re-derived from new state + once-only world data", 2)
@@ -53,6 +90,8 @@ def run(ctx):
     rep.rule("C24.R3", "set_new_initial_state / deepcopy", 5)
     rep.rule("C24.R4", "contact re-assembly", 2)
     rep.rule("C24.R6", "fields of one tracking state are re-initialised together", 2)
+    rep.rule("C24.R7", "force-law data defaulted from the initial state (l_ref, ...) is resolved once: the guard tests the attribute that is assigned", 3)
+    default_resolution(ctx)
     rep.rule("C24.R5", "registration markers (nq, nu, nla_*) are constructor data", 12)
     model = ctx.model
     # ---- R1
@@ -261,5 +300,10 @@ MUTANTS += [
          old="x", new="y", expect="C24.R6",
          edits=[("cardillo/constraints/revolute.py", "        self.angle_dot = self.l_dot\n\n        super().__init__(", "        self.angle_dot = self.l_dot\n\n        self.n_full_rotations = 0\n        self.previous_quadrant = 1\n\n        super().__init__("),
                 ("cardillo/constraints/revolute.py", "    def assembler_callback(self):\n        self.n_full_rotations = 0\n        self.previous_quadrant = 1\n", "    def assembler_callback(self):\n        self.previous_quadrant = 1\n")]),
+]
+MUTANTS += [
+    dict(id="c24-r7-seed", canary=True, what="[seeded by sub-agent] Spring resolves the default reference length into a private attribute on every assembly", file="cardillo/force_laws/spring.py",
+         old="        if self.l_ref is None:\n            self.l_ref = self.subsystem.l(self.subsystem.t0, self.subsystem.q0)",
+         new="        if self.l_ref is None:\n            self._l_ref = self.subsystem.l(self.subsystem.t0, self.subsystem.q0)\n        else:\n            self._l_ref = self.l_ref", expect="C24.R7"),
 ]
 NEUTRAL = []
